@@ -129,6 +129,9 @@ func (p *parser) parseMessageText() (dataItem ast.ItemNode, ok bool) {
 	}
 	p.pos += 1
 
+	if lengthBytesCount > len(p.input)-p.pos {
+		return ast.NewEmptyItemNode(), false
+	}
 	lengthBytes := p.input[p.pos : p.pos+lengthBytesCount]
 	var length int
 	for i, b := range lengthBytes {
@@ -137,22 +140,25 @@ func (p *parser) parseMessageText() (dataItem ast.ItemNode, ok bool) {
 	}
 	p.pos += lengthBytesCount
 
+	// The payload of every format except a list consists of exactly length bytes
+	if formatCode != formatCodeList && length > len(p.input)-p.pos {
+		return ast.NewEmptyItemNode(), false
+	}
+
 	switch formatCode {
 	case formatCodeList:
-		values := make([]interface{}, length)
+		values := []interface{}{}
 		for i := 0; i < length; i++ {
-			values[i], ok = p.parseMessageText()
+			item, ok := p.parseMessageText()
 			if !ok {
 				return ast.NewEmptyItemNode(), false
 			}
+			values = append(values, item)
 		}
 		return ast.NewListNode(values...), true
 
 	case formatCodeASCII:
-		var str string
-		for _, v := range p.input[p.pos : p.pos+length] {
-			str += string(v)
-		}
+		str := string(p.input[p.pos : p.pos+length])
 		p.pos += length
 		return ast.NewASCIINode(str), true
 
